@@ -422,15 +422,18 @@ Proof.
   intros Ha Hb E. apply Rmult_integral in E. destruct E as [E|E]; apply sqrt_eq_0 in E; auto.
 Qed.
 
-(* estimate(seq) for complex data, every sample with N >= 2 (since fix C12-estimate-complex-r0: a sample
-   covariance of exactly 0 gives two independent components and no correlation register is written) *)
+(* estimate(seq) for complex data, every sample with N >= 2.  Since fix C12-estimate-complex-zero-cov-dof the two
+   components are ALWAYS one dependent pair (independent = False) whose correlation register holds the sample
+   correlation, 0 included: they are one simultaneous sample, which is what makes every combination have N-1 dof. *)
 Definition is0 (x : R) : bool := if Req_EM_T x 0 then true else false.
+Definition rS (l : list (R * R)) : R :=
+  if is0 (ccov l) then 0 else ccov l / (sqrt (svar (res_ l)) * sqrt (svar (ims_ l))).
 Theorem estimate_cplx_R l : (2 <= length l)%nat ->
   let re := res_ l in let im := ims_ l in let n := lenR l in
   estimate_cplx RNum l =
-  Ok (mkLeaf (meanR re) (sqrt (svar re) / sqrt n) (n - 1) (is0 (ccov l)),
-      mkLeaf (meanR im) (sqrt (svar im) / sqrt n) (n - 1) (is0 (ccov l)),
-      if is0 (ccov l) then None else Some (ccov l / (sqrt (svar re) * sqrt (svar im)))).
+  Ok (mkLeaf (meanR re) (sqrt (svar re) / sqrt n) (n - 1) false,
+      mkLeaf (meanR im) (sqrt (svar im) / sqrt n) (n - 1) false,
+      Some (rS l)).
 Proof.
   intros H re im n. cbn [T RNum] in *. pose proof (len_ge2 l H) as H2. pose proof (lenR_ge2 l H) as H3.
   assert (0 < n - 1) as Hd by (unfold n; lra).
@@ -461,22 +464,18 @@ Proof.
       { unfold Rdiv in E. apply Rmult_integral in E. destruct E as [E|E]; [assumption|].
         exfalso. apply Rinv_neq_0_compat in E; [assumption|lra]. }
       rewrite dot_comm, (dot_self_zero _ _ E0). unfold Rdiv. ring. }
-  assert (eqb RNum 0 0 = true) as E00 by (apply R_eqb_true; reflexivity).
-  unfold is0. destruct (Req_EM_T (ccov l) 0) as [Hc|Hc].
+  unfold rS, is0. fold re im. destruct (Req_EM_T (ccov l) 0) as [Hc|Hc].
   - destruct (Req_EM_T (sqrt (svar re) * sqrt (svar im)) 0) as [E|E].
-    + cbn [bind fst snd]. unfold g_est_cplx_indep, g_est_cplx_rarg. rewrite dyad00, E00.
-      rewrite !elementary_R; cbn [T RNum] in *; try lia; try apply su_nonneg. cbn [bind negb].
+    + cbn [bind fst snd]. unfold g_est_cplx_indep, g_est_cplx_rarg.
+      rewrite !elementary_R; cbn [T RNum] in *; try lia; try apply su_nonneg. cbn [bind].
       rewrite IZR_pred. reflexivity.
-    + cbn [bind fst snd]. unfold g_est_cplx_indep, g_est_cplx_rarg. rewrite dyad00, Hc.
+    + cbn [bind fst snd]. unfold g_est_cplx_indep, g_est_cplx_rarg. rewrite Hc.
       replace (0 / (sqrt (svar re) * sqrt (svar im))) with 0 by (unfold Rdiv; ring).
-      rewrite E00. rewrite !elementary_R; cbn [T RNum] in *; try lia; try apply su_nonneg. cbn [bind negb].
+      rewrite !elementary_R; cbn [T RNum] in *; try lia; try apply su_nonneg. cbn [bind].
       rewrite IZR_pred. reflexivity.
   - destruct (Req_EM_T (sqrt (svar re) * sqrt (svar im)) 0) as [E|E]; [exfalso; auto|].
-    cbn [bind fst snd]. unfold g_est_cplx_indep, g_est_cplx_rarg. rewrite dyad00.
-    rewrite R_eqb_false.
-    2:{ intros E0. unfold Rdiv in E0. apply Rmult_integral in E0. destruct E0 as [E0|E0]; [auto|].
-        apply Rinv_neq_0_compat in E0; assumption. }
-    rewrite !elementary_R; cbn [T RNum] in *; try lia; try apply su_nonneg. cbn [bind negb].
+    cbn [bind fst snd]. unfold g_est_cplx_indep, g_est_cplx_rarg.
+    rewrite !elementary_R; cbn [T RNum] in *; try lia; try apply su_nonneg. cbn [bind].
     rewrite IZR_pred. reflexivity.
 Qed.
 
@@ -1220,12 +1219,12 @@ End MecEntry.
 (* complex estimate, whole domain: the returned components always carry the 2x2 covariance of the mean *)
 Theorem estimate_cplx_full l : (2 <= length l)%nat ->
   let re := res_ l in let im := ims_ l in let n := lenR l in
-  exists lre lim o,
-    estimate_cplx RNum l = Ok (lre, lim, o)
+  exists lre lim r,
+    estimate_cplx RNum l = Ok (lre, lim, Some r)
     /\ lx lre = meanR re /\ lx lim = meanR im /\ ldf lre = n - 1 /\ ldf lim = n - 1
     /\ lu lre * lu lre = svar re / n /\ lu lim * lu lim = svar im / n
-    /\ lu lre * lu lim * (match o with Some r => r | None => 0 end) = ccov l / n
-    /\ lind lre = lind lim /\ (lind lre = true <-> ccov l = 0) /\ (o = None <-> ccov l = 0).
+    /\ lu lre * lu lim * r = ccov l / n
+    /\ lind lre = false /\ lind lim = false /\ (ccov l = 0 -> r = 0).
 Proof.
   intros H re im n. pose proof (lenR_ge2 l H) as H3. fold n in H3.
   assert (length re = length l /\ length im = length l) as [Lr Li]
@@ -1235,11 +1234,11 @@ Proof.
   eexists _, _, _. split; [apply estimate_cplx_R; assumption|]. cbn [lx lu ldf lind].
   repeat (split; [reflexivity|]).
   split; [apply var_from_u; lra|]. split; [apply var_from_u; lra|].
-  unfold is0. destruct (Req_EM_T (ccov l) 0) as [Hc|Hc].
-  - split; [rewrite Hc; unfold Rdiv; ring|]. split; [reflexivity|]. split; split; auto.
+  unfold rS, is0. fold re im. destruct (Req_EM_T (ccov l) 0) as [Hc|Hc].
+  - split; [rewrite Hc; unfold Rdiv; ring|]. repeat split; reflexivity.
   - split.
     + destruct (estimate_cplx_cov l H Hc) as (C1 & _ & _). exact C1.
-    + split; [reflexivity|]. split; split; intros; try discriminate; contradiction.
+    + repeat split; try reflexivity. intros; contradiction.
 Qed.
 
 (* ---- the float model (FNum, any oracle table): _clip_r and the ValueError of set_correlation_real ---- *)
